@@ -158,6 +158,8 @@ def gen(rng, focus, k=None, maxops=40):
         "send": 30, "poll": 25, "flush": 5, "save": 5, "restart": 4, "purge": 2, "offsets": 6,
         "topic": 4, "stats": 2, "full": 6,
     }
+    if cfg["cache"]:
+        w["evict"] = 7          # what clean_cache does to one partition when the memory limit is reached
     if focus == "C01":
         w.update({"send": 40, "full": 15, "restart": 6, "purge": 4})
     if focus == "C02":
@@ -182,6 +184,10 @@ def gen(rng, focus, k=None, maxops=40):
             g.poll()
         elif kind == "flush":
             g.emit(f"flush 0 #1 #1 {g.part()} {rng.choice([0, 1])}")
+        elif kind == "evict":
+            p = g.part()
+            g.emit(f"evict #1 #1 {p} {rng.choice([60, 150, 400, 1200, 100000])}")
+            g.full_poll(p)
         elif kind == "save":
             g.emit("save")
         elif kind == "restart":
@@ -281,6 +287,12 @@ def gen_retention(rng, focus, k=None, maxops=40):
     n = rng.randint(10, maxops)
     w = {"send": 40, "poll": 14, "maintain": 12, "jump": 8, "restart": 5, "full": 8, "topic": 8,
          "flush": 3, "save": 3, "purge": 2, "update": 3, "stats": 2, "badlimit": 2}
+    # a sibling topic in the same stream (its own limits, its own figures): what happens there must not
+    # move this topic's gate, retention or figures
+    sibling = rng.random() < 0.5
+    if sibling:
+        g.emit(f"create-topic 0 #1 2 sib 1 {rng.choice(['never', '3000000'])} {rng.choice(['unlimited', str(20 * seg)])} -")
+        w["sib"] = 12
     if focus == "C14":
         w.update({"jump": 14, "maintain": 16})
     if focus == "C16":
@@ -331,6 +343,12 @@ def gen_retention(rng, focus, k=None, maxops=40):
             g.emit(f"update-topic 0 #1 #1 t1 {e} {m} -")
         elif kind == "stats":
             g.emit("stats 0")
+        elif kind == "sib":
+            g.tick()
+            g.emit(f"send 0 #1 #2 pid:1 {g.msgs(rng.choice([3, 5, 8]))}")
+            if rng.random() < 0.4:
+                g.emit("topic 0 #1 #2")
+                g.emit("stream 0 #1")
         elif kind == "badlimit":
             g.emit(f"update-topic 0 #1 #1 t1 never {rng.choice([1, seg - 1])} -")
             g.emit(f"create-topic 0 #1 - small 1 never {seg - 1} -")
